@@ -499,3 +499,40 @@ Proof.
   { rewrite Hc. apply served_cores_ok; [apply (g_dag _ _ (gi_core _ _ G))|apply (g_from _ _ (gi_core _ _ G))]. }
   apply (admitted_after_reset v b f cores v' all ops' FS CO ID Ho' FF).
 Qed.
+
+(** * The premises as the runner evaluates them on every fast-forward (kinds RS and RP), dynamic
+      membership included: what remains unchecked is only that the shipped bodies belong to the
+      universe in which identifiers determine bodies *)
+Lemma after_reset_premisesb_sound b f cores : after_reset_premisesb b f cores = true ->
+  0 <= b_rr b /\ Forall (fun fe => fe_round fe <= b_rr b) (all_frame_events f) /\
+  forall fe e, In fe (all_frame_events f) -> core_of cores (fe_id fe) = Some e -> 0 <= e_index e.
+Proof.
+  unfold after_reset_premisesb. intros H. apply andb_prop in H. destruct H as [H H3]. apply andb_prop in H. destruct H as [H1 H2].
+  rewrite forallb_forall in H2, H3.
+  split; [lia|]. split.
+  - apply Forall_forall. intros fe Hin. specialize (H2 fe Hin). lia.
+  - intros fe e Hin Hc. specialize (H3 fe Hin). rewrite Hc in H3. lia.
+Qed.
+
+Theorem after_reset_checked v b f cores v' ops :
+  frame_shapeb f = true -> after_reset_premisesb b f cores = true ->
+  node_fast_forward v b f cores = (true, v') ->
+  (exists news, delivered (hrun v' ops) = delivered v ++ news /\
+     (forall k d, nth_error news k = Some d -> b_index d = Z.max (b_index b) (-1) + 1 + Z.of_nat k) /\
+     StronglySorted Z.lt (map b_rr news) /\ (forall d, In d news -> b_rr b < b_rr d)) /\
+  (forall all, (forall fe e, In fe (all_frame_events f) -> core_of cores (fe_id fe) = Some e -> In e all) ->
+     ids_determine all -> Forall (hop_ok all) ops ->
+     dag_okR (frame_ids f) (hrun v' ops) /\ from_attempts (hrun v' ops) all /\ grows v' (hrun v' ops)).
+Proof.
+  intros HS HP FF. pose proof (frame_shapeb_sound f HS) as FS.
+  destruct (after_reset_premisesb_sound b f cores HP) as [R0 [RB IX]].
+  split.
+  - destruct (ResetAfter.deliveries_after_reset_consecutive v b f cores v' ops FF) as [news [D1 [_ Hn]]].
+    destruct (ResetOrder.deliveries_after_reset_increasing v b f cores v' FS RB R0 FF ops) as [news' [D2 [Srt Hgt]]].
+    assert (news' = news) by (rewrite D1 in D2; apply app_inv_head in D2; congruence). subst news'.
+    exists news. split; [exact D1|]. split; [|split; [exact Srt|exact Hgt]].
+    intros j dj Hj. destruct (Hn j dj Hj) as [A _]. exact A.
+  - intros all Hin ID Ho.
+    apply (admitted_after_reset v b f cores v' all ops FS); [|exact ID|exact Ho|exact FF].
+    intros fe e Hfe Hc. split; [apply (IX fe e Hfe Hc)|apply (Hin fe e Hfe Hc)].
+Qed.
